@@ -244,6 +244,114 @@ def mps_fill_results(n_total, d, chi):
     return fn
 
 
+def rot(T, c, s):
+    """real rotation [[c,-s],[s,c]] as a complex tensor"""
+    return T.stack([T.stack([c, -s]), T.stack([s, c])]).to(T.complex128)
+
+
+def install_known_qr(env, known):
+    """torch.linalg.qr stub for a canonical-form walk whose matrices the harness built as Q0 @ R0
+    with Q0 an isometry and R0 upper triangular with non-zero diagonal.  A reduced QR of a full
+    column-rank matrix is unique up to a diagonal unitary D, so *every* valid LAPACK answer is
+    (Q0 D, D^* R0): D carries fresh symbolic phases.  One-column matrices get the exact column QR.
+    The stub verifies (as VCs) that each matrix it is given really is the announced Q0 @ R0.
+    Only installed under symtorch; the real torch runs LAPACK."""
+    T = env.torch
+    if env.mode == "real":
+        return
+    cnt = [0]
+    pending = list(known)
+
+    def phases(n):
+        ds = []
+        for _ in range(n):
+            k = cnt[0]
+            cnt[0] += 1
+            th = T.tensor(env.real(f"qr{k}.theta", lo=-3.0, hi=3.0), dtype=T.float64)
+            ds.append(T.cos(th) + 1j * T.sin(th))
+        return T.stack(ds)
+
+    def qr(a, mode="reduced"):
+        if a.shape[1] == 1:
+            p = (a.conj() * a).real.sum()
+            nrm = T.sqrt(p)
+            env.assume(scalar(nrm) > 0.001, "QR is applied to non-zero columns")
+            u = 1.0 / nrm
+            if env.symbolic:
+                lemma = env.eqv(scalar(u * u * p), 1.0)
+                env.check(lemma, "lemma: (1/|a|)^2 |a|^2 = 1")
+                env.assume(lemma, "lemma (proved): (1/|a|)^2 |a|^2 = 1")
+            ph = phases(1)[0]
+            return a * (ph.conj() * u), (ph * nrm).reshape(1, 1)
+        if not pending:
+            from symex.core import Inconclusive
+
+            raise Inconclusive("multi-column QR reached without an announced factorisation")
+        Q0, R0 = pending.pop(0)
+        if env.symbolic:  # (no record in the concrete runs: the real torch runs LAPACK and has none either)
+            env.check_eq(a, Q0 @ R0, "the matrix handed to QR is the announced Q0 @ R0")
+        D = phases(a.shape[1])
+        return Q0 * D.reshape(1, -1), D.conj().reshape(-1, 1) * R0
+
+    T.STUBS["linalg.qr"] = qr
+
+
+def mps_expect_batch_entangled(side):
+    """expect_batch / occupation on a 3-site canonical MPS with one bond of dimension 2 next to
+    the centre (site 1): the walk away from the centre crosses that bond with a genuine QR."""
+
+    def fn(env):
+        T = env.torch
+        mps_mod = env.mod("emu_mps.mps")
+        cbm = env.mod("emu_mps.custom_callback_implementations")
+        d = 2
+
+        def angle(name):
+            th = T.tensor(env.real(name, lo=-3.2, hi=3.2), dtype=T.float64)  # covers [-pi, pi]
+            return T.cos(th), T.sin(th)
+
+        ca, sa = angle("alpha")
+        cb, sb = angle("beta")
+        cg, sg = angle("gamma")
+        r00 = env.real("r00", lo=0.125, hi=4.0)
+        r11 = env.real("r11", lo=0.125, hi=4.0)
+        r01 = env.cplx("r01")
+        R0 = T.tensor([[r00, r01], [0.0, r11]], dtype=T.complex128)
+        Q0 = rot(T, cg, sg)
+        U = rot(T, ca, sa)  # the isometry on the far side of the chi=2 bond
+        unit = T.stack([cb, sb]).to(T.complex128)  # a normalised single-site tensor
+        if side == "left":
+            # bonds (2, 1): site 0 left-orthonormal (1,2,2), centre (2,2,1) with centre.view(2,2).mT = Q0 R0, site 2 unit
+            A0 = U.reshape(1, 2, 2)
+            A1 = (Q0 @ R0).mT.contiguous().reshape(2, 2, 1)
+            A2 = unit.reshape(1, 2, 1)
+        else:
+            # bonds (1, 2): site 0 unit, centre (1,2,2) with centre.view(2,2) = Q0 R0, site 2 right-orthonormal (2,2,1)
+            A0 = unit.reshape(1, 2, 1)
+            A1 = (Q0 @ R0).reshape(1, 2, 2)
+            A2 = U.reshape(2, 2, 1)
+        factors = [A0, A1, A2]
+        before = [f.clone() for f in factors]
+        psi = refs.contract_mps(T, before)
+        install_known_qr(env, [(Q0, R0)])
+        state = mps_mod.MPS([f.clone() for f in factors], orthogonality_center=1, num_gpus_to_use=0, eigenstates=["r", "g"])
+        ops = env.tensor_cplx("op", (1, d, d))
+        got = state.expect_batch(ops)
+        for q in range(3):
+            site = q if not env.mutant("mirror_sites") else 2 - q
+            O = refs.embed(T, ops[0], site, 3, d)
+            env.check_eq(got[q, 0], T.vdot(psi, O @ psi), f"expect_batch[{q}] = <psi|O({q})|psi> across a chi=2 bond ({side} of the centre)")
+        install_known_qr(env, [(Q0, R0)])
+        occ = cbm.qubit_occupation_mps_impl(None, config=None, state=state, hamiltonian=None)
+        nn = refs.n_op(T)
+        for q in range(3):
+            env.check_eq(occ[q], T.vdot(psi, refs.embed(T, nn, q, 3, d) @ psi).real, f"occupation[{q}] = <psi|n_{q}|psi> ({side})")
+        for f, b in zip(state.factors, before):
+            env.check_eq(f, b, "expect_batch leaves the factors unchanged")
+
+    return fn
+
+
 META = {
     "explanation": (
         "All eight emu-sv observable implementations (through `choose`) are executed on symbolic complex state vectors and symbolic "
@@ -281,6 +389,19 @@ def cases(tier):
     for n, k in ([(1, 1), (2, 1)] if q else [(1, 2), (2, 0), (2, 2)]):
         out.append(
             Case(f"dm_obs_n{n}_ops{k}", dm_observables(n, k), covers=COVERS_SV, bounds={"qubits": n, "jump_ops": k}, canaries=["shifted_site"] if n > 1 else [], weight=16**n, timeout_ms=60000)
+        )
+    for side in ("left", "right"):
+        out.append(
+            Case(
+                f"mps_expect_batch_entangled_{side}",
+                mps_expect_batch_entangled(side),
+                covers=[("emu_mps/mps.py", "MPS.expect_batch"), ("emu_mps/custom_callback_implementations.py", "qubit_occupation_mps_impl")],
+                bounds={"sites": 3, "bond_dims": [2, 1] if side == "left" else [1, 2], "centre": 1, "family": "Q0 = rotation(gamma), R0 upper triangular symbolic, neighbours rotation(alpha)/unit(beta)"},
+                canaries=["mirror_sites"],
+                weight=200,
+                timeout_ms=60000,
+                modes=("real", "shim", "sym"),
+            )
         )
     for nt, d, chi in ([(3, 2, 2), (2, 3, 1)] if q else [(2, 2, 2), (3, 2, 2), (4, 2, 2), (2, 3, 2), (3, 3, 1)]):
         out.append(
